@@ -56,7 +56,7 @@ func (p *Prog) runTaint(seed func(v ssa.Value) bool, typeOK func(t types.Type) b
 								t = true
 							}
 							if call, ok := x.Tuple.(*ssa.Call); ok {
-								for _, g := range p.Callees(call) {
+								for _, g := range p.CalleesData(call) {
 									if ts.retTaint[g][x.Index] {
 										t = true
 									}
@@ -70,7 +70,7 @@ func (p *Prog) runTaint(seed func(v ssa.Value) bool, typeOK func(t types.Type) b
 						case *ssa.Slice:
 							t = ts.tainted[x.X]
 						case *ssa.Call:
-							for _, g := range p.Callees(x) {
+							for _, g := range p.CalleesData(x) {
 								if ts.retTaint[g][0] && g.Signature.Results().Len() == 1 {
 									t = true
 								}
@@ -98,7 +98,7 @@ func (p *Prog) runTaint(seed func(v ssa.Value) bool, typeOK func(t types.Type) b
 				}
 				// calls: arguments -> parameters
 				if c, ok := in.(ssa.CallInstruction); ok {
-					for _, g := range p.Callees(c) {
+					for _, g := range p.CalleesData(c) {
 						if len(g.Blocks) == 0 || !p.InPkg(g) {
 							continue
 						}
@@ -554,7 +554,7 @@ func ruleA1PayloadBytes(c *Ctx) {
 					continue
 				}
 				// external callee receiving the bytes reads them
-				if len(p.Callees(x)) > 0 && !p.InPkg(p.Callees(x)[0]) {
+				if len(p.CalleesData(x)) > 0 && !p.InPkg(p.CalleesData(x)[0]) {
 					for _, a := range x.Call.Args {
 						if pb.tainted[a] {
 							uses = append(uses, bytesUse{x, false, "passed to " + fullCalleeName(x)})
